@@ -3,6 +3,7 @@ import FlacVerif.Model.Ops
 import FlacVerif.Driver.Proto
 import FlacVerif.Driver.SinkDrv
 import FlacVerif.Driver.StreamDrv
+import FlacVerif.Model.RfcRec
 namespace FlacVerif.Drv
 open FlacVerif Proto
 
@@ -91,7 +92,7 @@ def compRecord (r : Record) : List Verdict × List String :=
       ⟨some (8 * m.data.length), some (bytesToBits m.data), some [.writeBytesAligned m.data]⟩)
   | "streamwrite" =>
     let bytes := unhex (r.get "bytes")
-    match Rfc.analyze Md5.md5 bytes with
+    match Rfc.analyzeRec Md5.md5 bytes with
     | .error e => ([.diff "c12.stream" "decodable" e], stats)
     | .ok rep =>
       let st := streamOf rep
